@@ -88,7 +88,30 @@ func c10Case(o *Out, r *Rng) {
 	}
 	root, w, qi := newWorld(s, g)
 	doc := d.text()
-	if kind == "reject" {
+	if kind == "reject" && reject != "undefined-type-condition" && len(d.frags) > 0 && r.Chance(45) {
+		// the directive on a fragment definition (read after the spread that uses it: the definition fills a
+		// placeholder), on a fragment spread, or on an inline fragment
+		dir := map[string]string{"unknown-directive": "@nope", "misplaced-directive": "@deprecated", "unknown-directive-arg": "@skip(if: false, unless: true)"}[reject]
+		fr := Pick(r, d.frags)
+		site := r.Intn(3)
+		head := "fragment " + fr.name + " on " + fr.cond
+		spread := "..." + fr.name
+		switch {
+		case site == 0 && strings.Contains(doc, head+" {"):
+			if reject == "misplaced-directive" && r.Bool() {
+				dir = "@skip(if: true)" // FIELD | FRAGMENT_SPREAD | INLINE_FRAGMENT only
+			}
+			doc = strings.Replace(doc, head+" {", head+" "+dir+" {", 1)
+			o.Count("reject-site=fragment-definition")
+		case site == 1 && strings.Contains(doc, spread):
+			doc = strings.Replace(doc, spread, spread+" "+dir, 1)
+			o.Count("reject-site=fragment-spread")
+		default:
+			j := strings.LastIndex(strings.SplitN(doc, "\n", 2)[0], "}")
+			doc = doc[:j] + " ... " + dir + " { __typename } " + doc[j:]
+			o.Count("reject-site=inline-fragment")
+		}
+	} else if kind == "reject" {
 		// textual injection at a random field selection of the first operation
 		f := Pick(r, fields)
 		marker := f.name
